@@ -140,19 +140,24 @@ def axi_strategy(kind, tier):
                                   "r0": fl(0.3, 2.0), "jitter": st.sampled_from([0.0, 0.2]), "seed": st.integers(0, 2**16), "amp": st.sampled_from([0.05, 0.12]),
                                   "mat": st.sampled_from(["NeoHooke", "NeoHookeCompressible", "LinearElasticLargeStrain", "Volumetric"]).flatmap(
                                       lambda n: st.fixed_dictionaries({"name": st.just(n), "params": gmat.REG[n]["params"]})),
-                                  "cell": st.sampled_from(["quad", "quad8", "triangle", "triangle6"])})
+                                  "cell": st.sampled_from(["quad", "quad8", "triangle", "triangle6", "triangle-mini"])})
 
 
 def axi_check(kind, case, rec):
     fem = import_felupe()
     mesh = fem.Rectangle(a=(0.0, case["r0"]), b=(case["size"][0], case["r0"] + case["size"][1]), n=tuple(case["n"]))
     mesh = jittered(fem, mesh, case["jitter"], case["seed"])
-    cell = case["cell"] if kind == "energy" else "quad"
+    cell = case["cell"] if kind == "energy" else "triangle-mini" if kind == "energy-mini" else "quad"
+    if kind == "energy-mini":
+        kind = "energy"
     if cell.startswith("triangle"):
         mesh = mesh.triangulate()
     if cell in ("quad8", "triangle6"):
         mesh = mesh.add_midpoints_edges()
-    Rcls = {"quad": fem.RegionQuad, "quad8": fem.RegionQuadraticQuad, "triangle": fem.RegionTriangle, "triangle6": fem.RegionQuadraticTriangle}[cell]
+    if cell == "triangle-mini":
+        mesh = mesh.add_midpoints_faces()  # the bubble unknown of the MINI element (hierarchical: it carries no geometry)
+    Rcls = {"quad": fem.RegionQuad, "quad8": fem.RegionQuadraticQuad, "triangle": fem.RegionTriangle, "triangle6": fem.RegionQuadraticTriangle,
+            "triangle-mini": fem.RegionTriangleMINI}[cell]
     if case["seed"] % 2 == 0:
         # the region (and an axisymmetric field on it) existed before the mesh got its final radial position: the mesh is moved
         # and the region re-evaluated the documented way (mesh.update(points, callback=region.reload)); a field created
@@ -443,7 +448,7 @@ def uni_check(kind, case, rec):
 
 FAMILIES = [
     Family("planestrain-vs-slab", ["quad", "quad8", "quad9"], ps_check, strategy=ps_strategy, n={"quick": 24, "thorough": 900}, chunk=8, weight=3),
-    Family("axisymmetric", ["energy", "revolve-quick"], axi_check, strategy=axi_strategy, n={"quick": 8, "thorough": 80}, chunk=4, weight=4),
+    Family("axisymmetric", ["energy", "revolve-quick", "energy-mini"], axi_check, strategy=axi_strategy, n={"quick": 8, "thorough": 80}, chunk=4, weight=4),
     Family("axisymmetric-rate", ["revolve-thorough"], axi_check, strategy=axi_strategy, n={"quick": 1, "thorough": 30}, chunk=3, weight=6),
     Family("condensed-vs-threefield", ["hexahedron", "quad", "quad-axi", "quad8", "quad8-axi"], cond_check, strategy=cond_strategy, n={"quick": 20, "thorough": 800}, chunk=5, weight=3),
     Family("condensed-vs-threefield-q", ["hexahedron20"], cond_check, strategy=cond_strategy, n={"quick": 6, "thorough": 60}, chunk=2, weight=8),
